@@ -452,6 +452,9 @@ def get_gpytorch_model_w_known_hyperparams(
     model.update()
     model.train()
     model.clear_data()
+    if initial_sample_cnt == 0:
+        # Forget the training data in the GP as well; otherwise the returned model stays conditioned on X, Y.
+        model.update()
 
     # TODO: Initial sampling should be done outside of here. Can be a utility function.
     if initial_sample_cnt > 0:
@@ -809,6 +812,9 @@ def get_gpytorch_modellist_w_known_hyperparams(
     model.update()
     model.train()
     model.clear_data()
+    if initial_sample_cnt == 0:
+        # Forget the training data in the GP as well; otherwise the returned model stays conditioned on X, Y.
+        model.update()
 
     # TODO: Initial sampling should be done outside of here. Can be a utility function.
     if initial_sample_cnt > 0:
